@@ -513,10 +513,16 @@ impl<R: Read + Seek> Seek for CompressionLayerReader<'_, R> {
                         if distance_from_end >= 0 {
                             self.seek(SeekFrom::Start(
                                 end_pos
-                                    - u64::try_from(distance_from_end).map_err(|_| {
+                                    .checked_sub(u64::try_from(distance_from_end).map_err(|_| {
                                         io::Error::new(
                                             io::ErrorKind::InvalidInput,
                                             "Invalid distance_from_end value",
+                                        )
+                                    })?)
+                                    .ok_or_else(|| {
+                                        io::Error::new(
+                                            io::ErrorKind::InvalidInput,
+                                            "Seek before the start of the stream",
                                         )
                                     })?,
                             ))
